@@ -195,7 +195,8 @@ pub fn scenario_around(rng: &mut Rng, tz: Tz, j: Jump) -> Scenario {
     };
     let back = *rng.pick(&[0, 1, 30, 59, 60, 61, 90, 300, 3599, 3600, 3601, 7200, 3 * 3600, 86400, 90000, size, size + 1, size - 1, size / 2]);
     let start_utc = j.at - back.max(0);
-    let n_events = rng.range(2, 12);
+    // swarm, sizes: one walk in a hundred is long (the client follows the returned instants for a long time)
+    let n_events = if rng.chance(1, 100) { rng.range(60, 150) } else { rng.range(2, 12) };
     let mut steps = vec![observe(rng, size)];
     for _ in 0..n_events {
         let s = match rng.below(14) {
@@ -253,6 +254,14 @@ fn quiet_steps(rng: &mut Rng) -> Vec<Step> {
 fn gen_quiet_run(rng: &mut Rng) -> Scenario {
     let tz = random_zone(rng);
     let spec = ZoneSpec::Iana(tz);
+    // one quiet run in three is anywhere in the supported range 1900..9999, outside the reconstructed jump table
+    // (the oracle then reconstructs the neighbourhood's offsets on the fly)
+    if rng.chance(1, 3) {
+        let lo = secs(NaiveDate::from_ymd_opt(1900, 1, 5).unwrap().and_hms_opt(0, 0, 0).unwrap());
+        let hi = secs(NaiveDate::from_ymd_opt(9999, 12, 20).unwrap().and_hms_opt(0, 0, 0).unwrap());
+        let t = lo + rng.below((hi - lo) as u64) as i64;
+        return Scenario { zone: tz.name().into(), observer: observer_for(rng, tz).name().into(), expr: gen_expr(rng, None), holidays: vec![], jump: None, start_utc: t, steps: quiet_steps(rng) };
+    }
     let (lo, hi) = table_range();
     let mut t = lo + 10 * 86400 + rng.below((hi - lo - 20 * 86400) as u64) as i64;
     for _ in 0..20 {
